@@ -377,7 +377,36 @@ def corpus(n_schemas, seed, with_defaults=True, with_services=True):
                 {"name": "md", "ret": "void", "args": [{"id": 1, "req": "default", "ty": ref(f"Req{si}"), "name": "req"}]},
             ]})
         schemas.append(synthesize({"name": f"c{si}", "defs": defs}))
+    for si, sch in enumerate(schemas):
+        if si % 2 == 0:
+            spell_bytes(sch)
     return schemas
+
+
+def spell_bytes(schema):
+    """`byte` is the IDL's second spelling of i8, and the generator treats it on a path of its own (write_byte_field /
+    read_byte): in every other schema of a corpus the i8 -- struct-level fields and container elements alike -- are written `byte`."""
+    def walk(t):
+        if not isinstance(t, dict):
+            return
+        if t.get("b") == "i8":
+            t["as_byte"] = True
+        for k in ("list", "set"):
+            if k in t:
+                walk(t[k])
+        if "map" in t:
+            walk(t["map"][0])
+            walk(t["map"][1])
+    for d in schema["defs"]:
+        for f in d.get("fields", []):
+            walk(f["ty"])
+        if d.get("d") == "typedef":
+            walk(d["ty"])
+        for m in d.get("methods", []):
+            for a in m.get("args", []):
+                walk(a["ty"])
+            if m.get("ret") != "void":
+                walk(m.get("ret"))
 
 
 # every kind of default literal of G_thrift, systematically: (shape tag, literal)
